@@ -333,6 +333,7 @@ def k_sieved(L, c, R):
                   '%s([%d words] %d, base_count=%d) = %d [%s], pri.h contract: %d' % (name, nw, a, bc, got, L.cfg, exp))
     R.n += n
 
+PADS = (0, 1)
 def lib_primeval(L, v, iters=(RM_ITER,)):
     """every applicable primality function of the library on v -> {label: verdict}"""
     out = {}
@@ -340,7 +341,7 @@ def lib_primeval(L, v, iters=(RM_ITER,)):
         if v < 1 << wbits(L):
             out['priIsPrimeW'] = L.boolean('priIsPrimeW', v, stack(A, L.sz('priIsPrimeW_deep')))
         n0 = nwords(L, v.bit_length())
-        for pad in (0, 1):
+        for pad in (PADS if v.bit_length() < 1100 else (0,)):
             n = n0 + pad
             out['priIsPrime[n=%d]' % n] = L.boolean('priIsPrime', A.words(v, n), n, stack(A, L.sz('priIsPrime_deep', n)))
         for it in iters:
@@ -391,6 +392,25 @@ def carm_for_p1(p1, limit, primes):
             rec(P * r, Lc * (r - 1) // math.gcd(Lc, r - 1), r, k + 1)
     rec(p1, p1 - 1, p1, 1)
     return out
+
+def k_pqfam(L, c, R):
+    """composites n = p (k (p - 1) + 1), p and the cofactor prime: the family that contains most strong pseudoprimes to several bases"""
+    W = wbits(L)
+    with vf.Arena(L) as A:
+        st = stack(A, L.sz('priIsPrimeW_deep'))
+        for p in range(c['p0'] | 1, c['p1'], 2):
+            if not pri.is_prime(p):
+                continue
+            for k in c['ks']:
+                q = k * (p - 1) + 1
+                n = p * q
+                if n >> W or not pri.is_prime(q):
+                    continue
+                R.n += 1
+                if L.boolean('priIsPrimeW', n, st):
+                    R.bad('priIsPrimeW:composite-accepted', {'cfg': L.cfg, 'kind': 'isprimew', 'start': n, 'count': 1},
+                          'priIsPrimeW(%d) = 1 [%s], but %d = %d * %d' % (n, L.cfg, n, p, q))
+    R.outc('p(k(p-1)+1) composite', R.n)
 
 _CARM_PRIMES = {}
 def k_carm(L, c, R):
@@ -621,6 +641,41 @@ def bign_ctx(l):
     ps = ecp.params_by_level(l)
     return ps, ecp.Curve(ps['p'], ps['a'], ps['b']), (0, ps['yG']), ps['q'], l // 4
 
+def cubic_roots(a, c, p):
+    """roots of x^3 + a x + c mod p (p prime) when there is exactly one, else []: gcd(x^p - x, f) computed in GF(p)[x]/(f)"""
+    def mulmod(u, v):
+        r = [0] * 5
+        for i, ui in enumerate(u):
+            for j, vj in enumerate(v):
+                r[i + j] = (r[i + j] + ui * vj) % p
+        for d in (4, 3):                       # x^3 = -a x - c
+            t = r[d]; r[d] = 0
+            r[d - 2] = (r[d - 2] - a * t) % p; r[d - 3] = (r[d - 3] - c * t) % p
+        return r[:3]
+    acc = [1, 0, 0]; base = [0, 1, 0]
+    for bit_ in bin(p)[2:]:
+        acc = mulmod(acc, acc)
+        if bit_ == '1':
+            acc = mulmod(acc, base)
+    h = [acc[0], (acc[1] - 1) % p, acc[2]]      # x^p - x mod f
+    f = [c % p, a % p, 0, 1]
+    def trim(u):
+        while u and u[-1] == 0:
+            u = u[:-1]
+        return u
+    u, v = f, trim(h)
+    while v:
+        inv = pow(v[-1], -1, p)
+        while len(u) >= len(v):
+            k = u[-1] * inv % p; sh = len(u) - len(v)
+            u = trim([(ui - k * v[i - sh]) % p if i >= sh else ui for i, ui in enumerate(u)])
+            if not u:
+                break
+        u, v = v, u
+    if len(u) != 2:
+        return []
+    return [(-u[0]) * pow(u[1], -1, p) % p]
+
 def bign_key_cases(l):
     """[(label, kind, privkey int or None, (x, y))] -- x, y any integers below 2^(2l)"""
     ps, E, G, q, no = bign_ctx(l)
@@ -646,10 +701,13 @@ def bign_key_cases(l):
         ys = E.lift_x(x0)
         if ys:
             pts.append(('x=p+x0 (x0=%d on curve)' % x0, (p + x0, ys[0][1]))); break
-    for d in range(1, 200):
-        Qd = E.mul(d, G)
-        if Qd[1] + p < M:
-            pts.append(('y=p+y0', (Qd[0], Qd[1] + p))); break
+    for y0 in range(1, M - p):              # a curve point with y0 < 2^(2l) - p: its y-coordinate plus p still fits
+        xs = cubic_roots(ps['a'], ps['b'] - y0 * y0, p)
+        if xs:
+            assert E.is_on((xs[0], y0))
+            pts.append(('y=p+y0 (y0=%d on curve)' % y0, (xs[0], p + y0)))
+            pts.append(('on-curve (x, y0=%d)' % y0, (xs[0], y0)))
+            break
     out = [(lab, 'pubkey', None, pt) for lab, pt in pts]
     for d in (0, 1, 2, q - 1, q, q + 1, M - 1, ds[-1]):
         dm = d % q
@@ -731,7 +789,7 @@ def k_dstupoint(L, c, R):
         R.bad('dstuPointVal:%s' % ('invalid-accepted' if code == ERR_OK else 'valid-rejected'), dict(c),
               'dstuPointVal(%s, (%s, %s)) = %d [%s], section 10.1 (on the curve, order n): %s (%s)' % (c['name'], hex(x), hex(y), code, L.cfg, exp, c.get('label', '')))
 
-def dstu_point_cases(name):
+def dstu_point_cases(name, nrec=6):
     P, _ = dstu_full(name)
     fl = RD.F(P); m = P['p'][0]; no = (m + 7) // 8
     pt = P['P']
@@ -748,7 +806,7 @@ def dstu_point_cases(name):
         except ValueError:
             continue
         out.append(('curve point recovered from x~%d' % xc, q)); got += 1
-        if got >= 6:
+        if got >= nrec:
             break
     return out
 
@@ -855,13 +913,18 @@ def k_gen(L, c, R):
 KINDS = {'date2_all': k_date2_all, 'date2': k_date2, 'date_range': k_date_range, 'isprimew': k_isprimew, 'nextprimew': k_nextprimew,
          'nextprime': k_nextprime, 'sieved': k_sieved, 'smooth': k_sieved, 'primeval': k_primeval, 'isprime_range': k_isprime_range, 'carm': k_carm,
          'irred': k_irred, 'irred_big': k_irred_big, 'bels_std': k_bels_std, 'std': k_std, 'params': k_params, 'bignkey': k_bignkey,
-         'dstupoint': k_dstupoint, 'pfokkey': k_pfokkey, 'seed': k_seed, 'gen': k_gen, 'batch': k_batch}
+         'dstupoint': k_dstupoint, 'pfokkey': k_pfokkey, 'pqfam': k_pqfam, 'seed': k_seed, 'gen': k_gen, 'batch': k_batch}
 
 def run_case(c):
     L = common.lib(c['cfg'])
     R = Res()
+    t0 = time.time()
     KINDS[c['kind']](L, c, R)
-    return R.pack()
+    R.extra['t'] = time.time() - t0
+    out = R.pack()
+    for cfg in c.get('also', ()):           # same inputs on another build; the reference verdicts are memoised
+        out.setdefault('also', {})[cfg] = run_case(dict({k: v for k, v in c.items() if k != 'also'}, cfg=cfg))
+    return out
 
 def replay(rec):
     r = run_case(rec)
@@ -931,8 +994,8 @@ def prime_jobs(tier, cfg):
     def add(part, **kw):
         J.append(dict(cfg=cfg, part=part, **kw))
     # priIsPrimeW: dense ranges
-    dense = 1 << (16 if q else 20)
-    for s, n in chunks(0, dense, 1 << 14):
+    dense = 1 << (16 if q else 24)
+    for s, n in chunks(0, dense, 1 << (14 if q else 17)):
         add('priIsPrimeW', kind='isprimew', start=s, count=n)
     hw = 1 << (13 if q else 16)
     for c0 in (1 << 31, 1 << 32, 1 << 63, (1 << 64) - 1, 1373653, 4759123141, 25326001, 3215031751):
@@ -944,15 +1007,9 @@ def prime_jobs(tier, cfg):
     V = json.load(open(os.path.join(vf.VERIF, 'ref', 'vectors', 'pri.json')))
     psi = [str(int(t['psi'])) for t in V['deterministic_bounds']]
     add('pseudoprimes', kind='primeval', vals=psi, cls='least strong pseudoprime to the first prime bases')
-    fam = []
-    fb = pri.small_primes(1 << (12 if q else 16))[1:]
-    for k in (2, 3, 4, 5, 6):
-        for p in fb:
-            r = k * (p - 1) + 1
-            if pri.is_prime(r):
-                fam.append(str(p * r))
-    for i in range(0, len(fam), 256):
-        add('pseudoprimes', kind='primeval', vals=fam[i:i + 256], cls='p(k(p-1)+1) pseudoprime family')
+    pmax = (1 << 16) if W == 32 else (1 << (24 if q else 26))
+    for s, n in chunks(3, pmax, 1 << 17):
+        add('pseudoprime family p(k(p-1)+1)', kind='pqfam', p0=s, p1=s + n, ks=[2, 3, 4, 5, 6])
     for x in (1 << 16, 1 << 32):
         ps = adjacent_primes(x, 4)
         add('pq', kind='primeval', vals=[str(a * b) for i, a in enumerate(ps) for b in ps[i:]], cls='product of primes adjacent to 2^%d' % (16 if x == 1 << 16 else 32))
@@ -988,10 +1045,10 @@ def prime_jobs(tier, cfg):
         for trials, bc in ((SIZE_MAX, 0), (SIZE_MAX, 100), (7, 10)):
             for s, n in chunks(lo, 1 << l, 1 << 9):
                 add('priNextPrime', kind='nextprime', start=s, count=n, n=nw, trials=trials, base_count=bc, iter=RM_ITER)
-    combos = [(1, SIZE_MAX, 0), (1, SIZE_MAX, 30), (2, SIZE_MAX, 30), (1, 3, 10)] if q else \
-             [(1, SIZE_MAX, 0), (1, SIZE_MAX, 30), (1, SIZE_MAX, 1024), (2, SIZE_MAX, 0), (2, SIZE_MAX, 30), (1, 3, 10), (1, 1, 0), (2, 2, 1024)]
-    for nw, trials, bc in combos:
-        for s, n in chunks(0, 1 << 16, 1 << 11):
+    combos = [(1, SIZE_MAX, 0, 16), (2, SIZE_MAX, 30, 16), (1, SIZE_MAX, 30, 13), (1, 3, 10, 13)] if q else \
+             [(1, SIZE_MAX, 0, 16), (1, SIZE_MAX, 30, 16), (1, SIZE_MAX, 1024, 16), (2, SIZE_MAX, 0, 16), (2, SIZE_MAX, 30, 16), (1, 3, 10, 16), (1, 1, 0, 16), (2, 2, 1024, 16)]
+    for nw, trials, bc, lg in combos:
+        for s, n in chunks(0, 1 << lg, 1 << 11):
             add('priNextPrime', kind='nextprime', start=s, count=n, n=nw, trials=trials, base_count=bc, iter=RM_ITER)
     # factor-base predicates
     for kind in ('sieved', 'smooth'):
@@ -1050,12 +1107,65 @@ def date_jobs(tier, cfg):
         J.append(dict(cfg=cfg, part='tmDateIsValid', kind='date_range', y0=2000, y1=2004, m0=0, m1=13, d0=big, d1=big))
     return J
 
+def g12s_cm_sets():
+    """A non-standard g12s curve of KNOWN order N = 3 r (complex multiplication by sqrt(-11), j = -32768):
+    4p = t^2 + 11 v^2, N = p + 1 +- t.  -> [(label, params dict)]: (q = r, n = 3) is valid, q = N is rejected ONLY by the primality of q"""
+    v = ((1 << 126) + 12345) | 1
+    found = None
+    while not found:
+        tmax = math.isqrt(4 * (1 << 256) - 11 * v * v)
+        t = tmax if tmax & 1 else tmax - 1
+        for i in range(20000):
+            tt = t - 2 * i
+            p = (tt * tt + 11 * v * v) // 4
+            if p >> 255 == 0:
+                break
+            for sign in (1, -1):
+                N = p + 1 - sign * tt
+                if N % 3 == 0 and N < (1 << 256) and N // 3 > (1 << 254) and pri.is_prime(N // 3) and pri.is_prime(p):
+                    found = (p, N); break
+            if found:
+                break
+        v += 2
+    p, N = found
+    r = N // 3
+    j = -32768 % p
+    k = j * pow((1728 - j) % p, -1, p) % p
+    a, b = 3 * k % p, 2 * k % p
+    def point(a, b, x):
+        while True:
+            y = ecp.sqrt_mod((x * x * x + a * x + b) % p, p)
+            if y is not None and (y * y - (x * x * x + a * x + b)) % p == 0:
+                return (x, y)
+            x += 1
+    P = point(a, b, 1)
+    if RG.ec_mul(N, P, a, p) is not None:            # the other twist has order p + 1 - t
+        c = 2
+        while pow(c, (p - 1) // 2, p) == 1:
+            c += 1
+        a, b = a * c * c % p, b * c * c * c % p
+        P = point(a, b, 1)
+    assert RG.ec_mul(N, P, a, p) is None
+    while RG.ec_mul(3, P, a, p) is None or RG.ec_mul(r, P, a, p) is None:
+        P = point(a, b, P[0] + 1)
+    G3 = RG.ec_mul(3, P, a, p); Gr = RG.ec_mul(r, P, a, p)
+    # every condition of 5.2 except "q prime" holds for q = N
+    assert (N - p - 1) ** 2 <= 4 * p and N != p and all(pow(p, i, N) != 1 for i in range(1, 32)) and (4 * a ** 3 + 27 * b * b) % p and a and b
+    base = dict(l=256, p=p, a=a, b=b)
+    return [('valid: q = r, n = 3, G of order r', dict(base, q=r, n=3, xP=G3[0], yP=G3[1])),
+            ('q = N = 3r composite, n = 1, G of order N', dict(base, q=N, n=1, xP=P[0], yP=P[1])),
+            ('q = N = 3r composite, n = 1, G of order r', dict(base, q=N, n=1, xP=G3[0], yP=G3[1])),
+            ('q = r, n = 3, G of order 3r', dict(base, q=r, n=3, xP=P[0], yP=P[1])),
+            ('q = r, n = 3, G of order 3', dict(base, q=r, n=3, xP=Gr[0], yP=Gr[1])),
+            ('q = r, n = 1 (Hasse)', dict(base, q=r, n=1, xP=G3[0], yP=G3[1]))]
+
 def param_jobs(tier, cfg):
     """specs expanded in parallel by expand() (the reference arithmetic that builds the cases is not free)"""
     q = tier == 'quick'
-    J = [dict(cfg=cfg, expand='params', scheme=scheme, name=name) for scheme, name in STD_SETS]
+    J = [dict(cfg=cfg, expand='params', scheme=scheme, name=name, quick=q) for scheme, name in STD_SETS]
+    J += [dict(cfg=cfg, expand='g12s_cm')]
     J += [dict(cfg=cfg, expand='bignkeys', l=l) for l in (96, 128, 192, 256)]
-    J += [dict(cfg=cfg, expand='dstupoints', name=name) for name in RD.STD_NAMES]
+    J += [dict(cfg=cfg, expand='dstupoints', name=name, quick=q) for name in RD.STD_NAMES]
     J += [dict(cfg=cfg, expand='pfokkeys', name=name) for name in RP.STD_NAMES]
     J += [dict(cfg=cfg, expand='seeds', scheme=scheme, quick=q) for scheme in ('stb99', 'pfok')]
     return J
@@ -1077,14 +1187,20 @@ def expand(spec):
             D0 = ref_std(scheme, name)
         for lab, D in perturbations(scheme, D0):
             blob = pack(scheme, D)
+            kind_ = lab.split(':')[1]
+            if spec.get('quick') and scheme in ('stb99', 'pfok') and D0['l'] > 1100 and (kind_ in ('-1', 'zero') or (kind_.startswith('bit') and kind_ != 'bit0')):
+                continue        # quick tier: the long moduli get the short perturbation list
             if blob is not None:
                 add('%s perturbations' % scheme, kind='params', scheme=scheme, name=name, pert=lab, blob=blob.hex())
+    elif what == 'g12s_cm':
+        for lab, D in g12s_cm_sets():
+            add('g12s crafted curve of known composite order', kind='params', scheme='g12s', name='CM curve D=-11', pert=lab, blob=pack('g12s', D).hex())
     elif what == 'bignkeys':
         l = spec['l']
         for lab, kind, d, (x, y) in bign_key_cases(l):
             add('bign keys', kind='bignkey', l=l, what=kind, label=lab, d=str(d) if d is not None else None, x=str(x), y=str(y))
     elif what == 'dstupoints':
-        for lab, (x, y) in dstu_point_cases(spec['name']):
+        for lab, (x, y) in dstu_point_cases(spec['name'], 3 if spec.get('quick') else 6):
             add('dstu points', kind='dstupoint', what='val', name=spec['name'], label=lab, x=str(x), y=str(y))
     elif what == 'pfokkeys':
         name = spec['name']
@@ -1153,14 +1269,24 @@ def run(tier):
     J = date_jobs(tier, 'rel') + param_jobs(tier, 'rel')
     for cfg in ('rel', 'w32'):
         J += prime_jobs(tier, cfg) + poly_jobs(tier, cfg)
+    only = [x for x in os.environ.get('C12_ONLY', '').split(',') if x]       # development aid: run a subset of the parts
+    if only:
+        J = [j for j in J if 'expand' in j or any(x in j['part'] for x in only)]
+        chk.cap('C12_ONLY=%s: only a subset of the parts was run' % ','.join(only))
     specs = [j for j in J if 'expand' in j]
     J = [j for j in J if 'expand' not in j]
     for spec, r in zip(specs, vf.pmap(_expand_safe, specs, case_timeout=600)):
         if isinstance(r, dict):
             chk.violation('harness:expand:%s' % spec['expand'], dict(spec, kind='expand'), 'case generation failed: %s' % str(r)[-1500:])
         else:
-            J += r
-    prepare_sieve(1 << (16 if tier == 'quick' else 20))
+            J += [j for j in r if not only or any(x in j['part'] for x in only)]
+    # inputs whose reference verdict is expensive and memoised run on both builds inside one job
+    shared = lambda j: j['kind'] in ('irred', 'irred_big') or j.get('part') == 'standard primes'
+    J = [j for j in J if not (j['cfg'] == 'w32' and shared(j))]
+    for j in J:
+        if shared(j):
+            j['also'] = ['w32']
+    prepare_sieve(1 << (16 if tier == 'quick' else 24))
     # deterministic interleaving of cheap and expensive jobs over the workers
     import hashlib
     order = sorted(range(len(J)), key=lambda i: hashlib.sha256(b'%d' % i).digest())
@@ -1170,19 +1296,24 @@ def run(tier):
         results[i] = r
     carm = {}
     kinds = {}
+    flat = []
     for c, r in zip(J, results):
+        flat.append((c, r))
+        for cfg, r2 in (r.get('also') or {}).items():
+            flat.append((dict({k: v for k, v in c.items() if k != 'also'}, cfg=cfg), r2))
+    for c, r in flat:
         part = c.get('part', c['kind'])
         if 'mism' not in r:
-            rec = {k: v for k, v in c.items() if k != 'part'}
+            rec = {k: v for k, v in c.items() if k not in ('part', 'also')}
             chk.violation('%s:%s' % ('crash' if 'crash' in r else 'harness', c['kind']), rec,
                           '%s in %s: %s' % ('library crashed' if 'crash' in r else 'HARNESS ERROR', c['kind'], (r.get('stderr') or r.get('harness_error') or str(r))[-1500:]))
             continue
-        chk.part(part + ' [' + c['cfg'] + ']', states=r['n'], transitions=r['n'], traces_validated_against_impl=r['n'], evaluations=r['n'])
+        chk.part(part + ' [' + c['cfg'] + ']', states=r['n'], transitions=r['n'], traces_validated_against_impl=r['n'], evaluations=r['n'], cpu_s=round(r['extra']['t'], 2))
         kinds[c['kind']] = kinds.get(c['kind'], 0) + 1
         for o, k in r['out'].items():
             chk.outcome(o, k)
         for key, (rec, msg, cnt) in r['mism'].items():
-            rec = {k: v for k, v in rec.items() if k != 'part'}
+            rec = {k: v for k, v in rec.items() if k not in ('part', 'also')}
             chk.violation(key, rec, msg + ('   [%d such cases in this job]' % cnt if cnt > 1 else ''))
         if 'carm' in r['extra']:
             carm[(c['cfg'], c['limit'])] = carm.get((c['cfg'], c['limit']), 0) + r['extra']['carm']
@@ -1194,7 +1325,7 @@ def run(tier):
             chk.violation('harness:carmichael-count', {'cfg': cfg, 'kind': 'primeval', 'vals': []}, 'generated %d Carmichael numbers below %d, literature: %s' % (n, limit, known.get(limit)))
         chk.observe('Carmichael numbers below %d generated and tested [%s]: %d' % (limit, cfg, n))
     for s in ({'tmDateIsValid2': '6-tuples over %s' % ('{0,1,2,3,8,9,10,0x30,0xFF}' if tier == 'quick' else '{0..10,15,0x30,0x39,0xFF}')},
-              {'priIsPrimeW': 'every n < 2^%d, windows of half-width 2^%d around 2^31, 2^32, 2^63, 2^64-1 and psi_2..psi_4, 4759123141' % ((16, 13) if tier == 'quick' else (20, 16))},
+              {'priIsPrimeW': 'every n < 2^%d, windows of half-width 2^%d around 2^31, 2^32, 2^63, 2^64-1 and psi_2..psi_4, 4759123141; all p(k(p-1)+1), k=2..6, p < 2^%d' % ((16, 13, 24) if tier == 'quick' else (24, 16, 26))},
               {'ppIsIrred': 'all 131072 polynomials below x^17'},
               {'params': 'bignParamsVal(128v1 with q:q+2)'}, {'keys': 'bignPubkeyVal twist point / x=p / y=p+y0'},
               {'jobs by kind': kinds}):
